@@ -140,4 +140,40 @@ def aesGCMDecryptA (A : AEAD) (m : Mem) (dst ct key nonce ad : Win) : Mem × R U
       | some _ => (m, .ok ())
       | none => (m, .err "open")
 
+/-! ### the PKCS#7 helpers at buffer level (every block size, not only 16) -/
+
+/-- what a Go function returns as `[]byte`: a window of the caller's arena, or a new array -/
+inductive Slice where
+  | inArena (w : Win)
+  | fresh (v : Bytes)
+deriving Repr
+
+/-- `PKCS7Padding(data, blockSize)`: `append(data, bytes.Repeat([]byte{byte(paddingLen)}, paddingLen)...)`.
+`append` writes into the SPARE CAPACITY of `data` when the padding fits there (cells
+`[off+len, off+len+paddingLen)` of the caller's arena) and allocates otherwise. -/
+def pkcs7PaddingA (m : Mem) (data : Win) (blockSize : Int) : Mem × R Slice :=
+  if data.len = 0 then (m, .err "empty")
+  else if blockSize ≤ 0 then (m, .err "blocksize")
+  else
+    let paddingLen : Int := blockSize - Int.tmod data.len blockSize
+    match goRepeat (toByte paddingLen.toNat) paddingLen with
+    | none => (m, .panic)
+    | some pad =>
+      if data.len + pad.length ≤ data.cap then
+        (m.wr (data.off + data.len) pad, .ok (.inArena { data with len := data.len + pad.length }))
+      else (m, .ok (.fresh (m.rd data ++ pad)))
+
+/-- `PKCS7UnPadding(data, blockSize)`: reads only (`bytes.Repeat` allocates, `bytes.Equal`
+compares) and returns the sub-slice `data[:len(data)-paddingLen]`. -/
+def pkcs7UnPaddingPubA (m : Mem) (data : Win) (blockSize : Int) : Mem × R Win :=
+  match pkcs7UnPaddingPub (m.rd data) blockSize with
+  | .ok d => (m, .ok { data with len := d.length })
+  | .err e => (m, .err e)
+  | .panic => (m, .panic)
+
+/-- the content of a returned slice -/
+def Slice.content (m : Mem) : Slice → Bytes
+  | .inArena w => m.rd w
+  | .fresh v => v
+
 end Golib.C08.Arena
